@@ -1,6 +1,6 @@
 (* Property C05 — in-order fragments reassemble to exactly the unfragmented message. *)
 From Ais Require Import Model.Base Model.Messages Model.Unarmor Model.Sentence Spec.Grammar Proofs.SentenceLemmas Proofs.Reassembly
-  Proofs.Histories Proofs.InOrder Proofs.Strings.
+  Proofs.Histories Proofs.InOrder Proofs.Strings Spec.Armor Spec.Transmit Proofs.UnarmorProof Proofs.Transmit.
 From Coq Require Import String Lia.
 Local Open Scope N_scope.
 
@@ -60,6 +60,63 @@ Theorem C05_conversions :
             (frag_to_result f = match f with Complete s => Ok s | Incomplete _ => Err ENmea end).
 Proof. exact conversions_exact. Qed.
 Print Assumptions C05_conversions.
+
+(* Transmit, then receive (Spec/Transmit.v is the transmitting side: armouring, fragmentation, framing with
+   checksums).  A message bit string is armoured; its characters are cut into 2..255 non-empty parts at ANY
+   boundaries; the parts are framed as "!AIVDM,n,k,id,chan,part,fill*HH", numbered 1..n with one sequence id
+   (or none), only the last carrying the fill count.  Fed in order to a parser in ANY state, each line with
+   its own decode flag, decoding requested on the last: every result but the last is Incomplete of the
+   fragment's own sentence ([receive_group]), and the last is Complete carrying the whole armoured payload
+   and the decoding of the message bits followed by zero bits — or that decoding's error. *)
+Theorem C05_receive_group :
+  forall c q st id chan parts fill (ds : list bool),
+    group_ok c id chan parts fill -> (2 <= List.length parts <= 255)%nat -> List.length ds = List.length parts ->
+    run c q st (combine (transmit id chan parts fill) ds) =
+    ({| p_id := id; p_fn := 0; p_data := [] |},
+     expected c q [] (combine (group_sentences q (N.of_nat (List.length parts)) 1 id chan parts fill) ds)).
+Proof. exact receive_group. Qed.
+Print Assumptions C05_receive_group.
+
+Theorem C05_transmit_receive :
+  forall c q st id chan (bits : list bool) parts (ds : list bool),
+    List.concat parts = armored_payload bits ->
+    group_ok c id chan parts (N.of_nat (fill_of bits)) ->
+    (2 <= List.length parts <= 255)%nat -> List.length ds = List.length parts -> last ds false = true ->
+    noalloc c && (MAX_SENTENCE_SIZE_BYTES <? byte_count (List.length (armored_payload bits)))%nat = false ->
+    let sentences := group_sentences q (N.of_nat (List.length parts)) 1 id chan parts (N.of_nat (fill_of bits)) in
+    let s := with_data (last sentences (sentence_of_fields q (frame_fields 0 0 None 0 [] 0))) (armored_payload bits) in
+    exists k,
+      last (snd (run c q st (combine (transmit id chan parts (N.of_nat (fill_of bits))) ds))) (Err ENmea) =
+      match parse_bits c q (bits ++ repeat false k) with
+      | Ok m => Ok (Complete (with_message s (Some m)))
+      | Err e => Err e
+      | Panic p => Panic p
+      end.
+Proof. exact transmit_receive. Qed.
+Print Assumptions C05_transmit_receive.
+
+(* the same message sent unfragmented: the same decoding, and the state untouched *)
+Theorem C05_transmit_receive_unfragmented :
+  forall c q st id chan (bits : list bool),
+    armored_payload bits <> [] ->
+    group_ok c id chan [armored_payload bits] (N.of_nat (fill_of bits)) ->
+    noalloc c && (MAX_SENTENCE_SIZE_BYTES <? byte_count (List.length (armored_payload bits)))%nat = false ->
+    let f := frame_fields 1 1 id chan (armored_payload bits) (N.of_nat (fill_of bits)) in
+    exists k,
+      step c q st (frame_line f) true =
+      (st, match parse_bits c q (bits ++ repeat false k) with
+           | Ok m => Ok (Complete (with_message (sentence_of_fields q f) (Some m)))
+           | Err e => Err e
+           | Panic p => Panic p
+           end).
+Proof. exact transmit_receive_single. Qed.
+Print Assumptions C05_transmit_receive_unfragmented.
+
+(* non-vacuity of the transmitter: the framing of the repository's second test fragment is that very line *)
+Example C05_transmitter_nonvacuous :
+  frame_line (frame_fields 2 2 (Some 1) 66 (bytes "0000000") 2) = bytes "!AIVDM,2,2,1,B,0000000,2*26" /\
+  armored_payload [true; false; false; false; false; true; true] = bytes "QP" /\ fill_of [true; false; false; false; false; true; true] = 5%nat.
+Proof. vm_compute. repeat split; reflexivity. Qed.
 
 (* non-vacuity: the repository's two-fragment vector meets the hypotheses and decodes as type 5 *)
 Example C05_nonvacuous :
